@@ -15,6 +15,7 @@ from harness import engine_common as E
 from harness.gen_engine_tables import render
 
 logging.getLogger("werkzeug").setLevel(logging.ERROR)
+DRIVERS = ("Engine",)
 EXTRA_TARGETS = ("SV.Props.C11",)
 
 KF_LIMIT = "C11:unit.execute:scenario-unclosed-when-failure-limit-stops-a-multi-worker-phase"
